@@ -14,6 +14,7 @@ pub fn draw_exec_config(step_budget: u64) -> ExecConfig {
         spurious_den,
         time_pass_den,
         step_budget,
+        time_pass_never: &[],
         pct_depth: 1 + ch("exec.pct_depth", 3),
         pct_horizon: 8 << ch("exec.pct_horizon", 4),
     }
@@ -97,4 +98,9 @@ pub fn list_tree(root: &std::path::Path) -> (Vec<(String, Vec<u8>)>, Vec<String>
 
 pub fn fnv(bytes: &[u8]) -> u64 {
     simkit::rng::hash_bytes(bytes)
+}
+
+/// Leaf name of a Windows- or POSIX-style path.
+pub fn leaf(path: &str) -> &str {
+    path.rsplit(['/', '\\']).next().unwrap_or(path)
 }
